@@ -83,7 +83,11 @@ Definition lprop (c : lcase) : bool :=
           if negb (bytes_eqb h (nc_hrp LAddr net)) then outcome_eqb bytes_eqb berr_eqb (Err BHrpMismatch) o
           else match orig with
                | Some key => outcome_eqb bytes_eqb berr_eqb (Ok key) o
-               | None => match o with Ok _ => true | Err e => berr_eqb e BReadError | Panic => false end
+               | None => match o with
+                         | Ok key => match reader LAddr (prim_of t LAddr) d with OSome key' => bytes_eqb key key' | _ => false end
+                         | Err e => berr_eqb e BReadError
+                         | Panic => match reader LAddr (prim_of t LAddr) d with OPanic => true | _ => false end
+                         end
                end
       end
   | LFvkNet t i orig o =>
@@ -137,21 +141,48 @@ Definition ltab_ok (t : otab) : bool :=
                                       && match r with OSome b => is_bytes b | _ => true end
                     end) t.
 
+Definition ores_is (r : ores) (b : bytes) : bool := match r with OSome x => bytes_eqb x b | _ => false end.
+
+(** what the harness claims with [orig]: the input is the encoding of that value *)
+Definition dec_claim (t : otab) (k : lkind) (hrp : bytes) (i : binput) (orig : option bytes) : bool :=
+  match orig with
+  | None => true
+  | Some key => match i with
+                | BStr h d => bytes_eqb h hrp && ores_is (reader k (prim_of t k) d) key
+                | BNot => false
+                end
+  end.
+Definition fvknet_claim (t : otab) (i : binput) (orig : option (N * bytes)) : bool :=
+  match orig with
+  | None => true
+  | Some (n0, key) => match i with
+                      | BStr h d => (n0 <? 3) && bytes_eqb h (nc_hrp LFvk n0) && ores_is (prim_of t LFvk d) key
+                      | BNot => false
+                      end
+  end.
+Definition t_claim (i : option bytes) (orig : option (N * taddr)) : bool :=
+  match orig with
+  | None => true
+  | Some (n0, a) => match i with
+                    | Some d => (n0 <? 3) && taddr_ok a && bytes_eqb d (t_encode (nc_pubkey n0) (nc_script n0) a)
+                    | None => false
+                    end
+  end.
+
 Definition lwf (c : lcase) : bool :=
   match c with
   | LEnc _ hrp p _ => is_bytes hrp && is_bytes p
   | LEncP w net p _ => (w <? 2) && (net <? 3) && is_bytes p
-  | LDec t _ hrp i _ _ => ltab_ok t && is_bytes hrp && binput_ok i
-  | LDecP t net i _ _ => ltab_ok t && (net <? 3) && binput_ok i
-  | LFvkNet t i _ _ => ltab_ok t && binput_ok i
+  | LDec t k hrp i orig _ => ltab_ok t && is_bytes hrp && binput_ok i && dec_claim t k hrp i orig
+  | LDecP t net i orig _ => ltab_ok t && (net <? 3) && binput_ok i && dec_claim t LAddr (nc_hrp LAddr net) i orig
+  | LFvkNet t i orig _ => ltab_ok t && binput_ok i && fvknet_claim t i orig
   | LTEnc pk sh a _ => is_bytes pk && is_bytes sh && taddr_ok a
   | LTEncP w net a _ => (w <? 2) && (net <? 3) && taddr_ok a
   | LTDec net pk sh i orig _ =>
       (net <? 3) && is_bytes pk && is_bytes sh && match i with Some d => is_bytes d | None => true end
-      && match orig with Some (n0, a) => (n0 <? 3) && taddr_ok a | None => true end
+      && t_claim i orig
   | LTDecP net i orig _ =>
-      (net <? 3) && match i with Some d => is_bytes d | None => true end
-      && match orig with Some (n0, a) => (n0 <? 3) && taddr_ok a | None => true end
+      (net <? 3) && match i with Some d => is_bytes d | None => true end && t_claim i orig
   end.
 
 Definition lk_n (k : lkind) : N := match k with LSk => 0 | LFvk => 1 | LAddr => 2 end.
